@@ -3,13 +3,29 @@
 use sigv4_verif_harness::*;
 use sigv4_verif_harness::util::*;
 
+static LAST_PANIC: std::sync::Mutex<String> = std::sync::Mutex::new(String::new());
+
 fn main() {
+    let r = std::panic::catch_unwind(real_main);
+    if r.is_err() {
+        eprintln!("HARNESS-PANIC {}", LAST_PANIC.lock().map(|g| g.clone()).unwrap_or_default());
+        std::process::exit(101);
+    }
+}
+
+fn real_main() {
     let args: Vec<String> = std::env::args().collect();
     if args.len() < 3 {
         eprintln!("usage: harness <property> <quick|thorough> [seed]");
         std::process::exit(2);
     }
-    std::panic::set_hook(Box::new(|_| {}));
+    // panics inside the crate under test are caught and reported per case; the hook only remembers the last one
+    // so that a panic of the harness itself can be shown (see the end of main)
+    std::panic::set_hook(Box::new(|info| {
+        if let Ok(mut g) = LAST_PANIC.lock() {
+            *g = format!("{}", info);
+        }
+    }));
     let prop = args[1].clone();
     if prop == "c18child" {
         props_runtime::c18_child(&args[2], args[3].parse().unwrap());
